@@ -96,7 +96,7 @@ def mg_incompat(case, ctx):
     for k, (table, mode, names) in enumerate(zip(case["tables"], case["modes"], case["names"])):
         p = os.path.join(d, f"in{k}.cool")
         n = len(table)
-        px = [[i, i, 1] for i in range(n)]
+        px = [] if case.get("empty", [False] * 9)[k] else [[i, i, 1] for i in range(n)]
         cooler.create_cooler(p, gen.bins_frame(table, names), gen.pixels_frame(px), ordered=True,
                              symmetric_upper=mode == "symm")
         uris.append(p)
@@ -149,6 +149,13 @@ def mg_unordered(case, ctx):
         extra["dtypes"] = {c: np.float64 for c in cols}
     if case.get("dupcheck") is False:
         extra["dupcheck"] = False
+    if case.get("checks_off"):                  # valid input with every check switched off (sorting may still be requested)
+        extra.update({"boundscheck": False, "triucheck": False, "dupcheck": False})
+    if case.get("val_dtype"):                   # narrow value columns: every chunk fits, the aggregate over chunks may not
+        for f in frames:
+            for c in cols:
+                f[c] = f[c].astype(case["val_dtype"])
+        extra["dtypes"] = {c: np.dtype(case["val_dtype"]) for c in cols}
     if case["form"] == "dict":
         frames = [{k: v.values for k, v in f.items()} for f in frames]
     out = os.path.join(d, "out.cool")
